@@ -23,7 +23,7 @@
 const char *adapter_name = "regp";
 
 /* ---- recording sink / array source */
-static unsigned char out[1 << 16];
+static unsigned char out[1 << 19];
 static size_t outn;
 static long snk_calls, snk_fail_at;
 static unsigned emitf_odd;     /* emitf: the snk_fail_at-th call of the sink is refused with EIO */
@@ -257,12 +257,12 @@ void adapter_exec(Ev *ev)
         for (size_t i = 0; i < outn; i++) obs(ev, out[i]);
         obs(ev, -7);
         /* the library's own receiver on a peer instance (same transport; peer memory word size irrelevant for recv) */
-        static unsigned char wire[1 << 16];
+        static unsigned char wire[1 << 19];
         size_t nw = outn;
         memcpy(wire, out, nw);
         Arr wa = { wire, nw, 0 };
         outn = 0;
-        setup(&peer, tr, mem16, 4096, &wa);
+        setup(&peer, tr, mem16, nw + 4096, &wa);        /* the peer's block holds whatever was emitted */
         RPMaybeFrame mf; memset(&mf, 0, sizeof mf);
         int prc = regp_recv(&peer, &mf);
         obs(ev, prc < 0 ? -1 : 0); obs(ev, mf.error.id);
